@@ -46,7 +46,10 @@ CHECKS = {
              "after an effective cancel; payload only after setup and completion). non-trivial = server untrusted, reached pending-listen "
              "and >= 2 further events executed; distinct = hash of the script",
         runs=[dict(engine="shipsim", test="TestC01", quick=dict(checks=40000, shards=4, timeout=600),
-                   thorough=dict(checks=1600000, shards=16, timeout=3000))],
+                   thorough=dict(checks=1600000, shards=12, timeout=3000)),
+              # hub level: a real peer keeps knocking while the user registers / cancels / unregisters
+              dict(engine="hubnet", test="TestC01Hub", shrinktime="1s", quick=dict(checks=6, shards=3, timeout=1200),
+                   thorough=dict(checks=60, shards=4, timeout=6000), env=dict(VERIF_BATCH="8"))],
     ),
     "C04": dict(
         level="exploration",
@@ -113,7 +116,10 @@ CHECKS = {
               "never set up; match => completes, known id not reported, new id reported exactly once before setup. non-trivial = a "
               "variant id or a reply before the request; distinct = hash of the script"),
         runs=[dict(engine="shipsim", test="TestC09", quick=dict(checks=30000, shards=4, timeout=600),
-                   thorough=dict(checks=1200000, shards=16, timeout=3000))],
+                   thorough=dict(checks=1200000, shards=12, timeout=3000)),
+              # hub level: stored SHIP ID (none / correct / wrong) x who dials, on two real hubs
+              dict(engine="hubnet", test="TestC09Hub", shrinktime="1s", quick=dict(checks=3, shards=3, timeout=1200),
+                   thorough=dict(checks=30, shards=4, timeout=6000), env=dict(VERIF_BATCH="8"))],
     ),
     "C12": dict(
         level="exploration",
